@@ -11,7 +11,7 @@
 From Coq Require Import String List ZArith NArith Bool.
 Import ListNotations.
 From Selfies Require Import Base Generated Atoms Grammar Decoder PySet Matching Smiles Kekulize Encoder
-  IndexSpec IndexCode Reader RoundTrip EncoderFacts PureFacts EncAttr EncStereo.
+  IndexSpec IndexCode Reader RoundTrip EncoderFacts PureFacts EncAttr EncStereo EncChir.
 Local Open Scope string_scope.
 
 Definition C04_full_statement : Prop :=
@@ -34,6 +34,24 @@ Theorem C04_chain_marks_faithful_partial : forall T smiles strict attribute x ma
     Forall2 (fun toks ms => Walked (mark_back ts) m toks (map ent ms)) tss mss.
 Proof. exact encoder_marks_faithful. Qed.
 
+(* tetrahedral tags outside rings (proofs/EncChir.v), attribute=True (attribute=False gives the same string: C17): the symbol
+   printed for the k-th atom is printed from an atom whose @ / @@ tag is that of the atom read from the k-th atom token
+   whenever that atom has no ring bond (its ring flag, set by add_ring_bond only, is false); with ring bonds it is that
+   tag or its inverse.  Whether the inversion decided for an atom with ring bonds is the right one is decided per input. *)
+Theorem C04_tags_outside_rings_faithful_partial : forall T smiles strict x maps ts,
+  encoder T smiles strict true = Ok (x, maps) -> tokenize_smiles smiles = Ok ts ->
+  exists m tss mss,
+    x = join (lit ".") (map (@concat N) tss) /\
+    maps = filter (fun a => match am_token a with [] => false | _ => true end) (concat mss) /\
+    Forall2 (fun toks ms => Walked (chir_back (m_ringflags m) ts) m toks (map ent ms)) tss mss.
+Proof. exact encoder_tags_faithful. Qed.
+
+Example C04_tags_example :
+  match encoder default_constraints (lit "N[C@@H](C)C(=O)O") true false with
+  | Ok (x, _) => str_eqb x (lit "[N][C@@H1][Branch1][C][C][C][=Branch1][C][=O][O]")
+  | Err _ => false end = true.
+Proof. vm_compute. reflexivity. Qed.
+
 Example C04_chain_marks_example :
   match encoder default_constraints (lit "F/C=C\Cl") true false with
   | Ok (x, _) => str_eqb x (lit "[F][/C][=C][\Cl]")
@@ -42,3 +60,4 @@ Proof. vm_compute. reflexivity. Qed.
 
 Print Assumptions C04_adjacent_swap_flips_parity_partial.
 Print Assumptions C04_chain_marks_faithful_partial.
+Print Assumptions C04_tags_outside_rings_faithful_partial.
